@@ -159,15 +159,15 @@ Fixpoint added_loop (one : pystr -> list pystr -> res * list pystr)
 Definition concat_res (l : list res) : res := fold_right app2 ([], []) l.
 
 (* _diff_iterable_with_deephash *)
-Definition iter_deephash : res :=
-  if rep then
-    let '(ra, remaining) := added_loop added_one_rep hashes_added hashes_removed in
-    let rr := concat_res (map removed_one_rep remaining) in
-    let ri := concat_res (map repetition_one (filter (fun h => mem_h h t1_hashes) t2_hashes)) in
-    app2 ra (app2 rr ri)
-  else
-    let '(ra, remaining) := added_loop added_one hashes_added hashes_removed in
-    app2 ra (concat_res (map removed_one remaining)).
+Definition iter_rep : res :=
+  let '(ra, remaining) := added_loop added_one_rep hashes_added hashes_removed in
+  let rr := concat_res (map removed_one_rep remaining) in
+  let ri := concat_res (map repetition_one (filter (fun h => mem_h h t1_hashes) t2_hashes)) in
+  app2 ra (app2 rr ri).
+Definition iter_norep : res :=
+  let '(ra, remaining) := added_loop added_one hashes_added hashes_removed in
+  app2 ra (concat_res (map removed_one remaining)).
+Definition iter_deephash : res := if rep then iter_rep else iter_norep.
 
 End Level.
 
